@@ -112,6 +112,10 @@ def gen_cases(rng, tier: str) -> list[dict]:
     if focus:
         for origin, e in gen.rich_shapes(rng, 2500, classes=focus):
             cases.append({"origin": "focus:" + origin, "e": wire.expr(gen.floatify(e))})
+        for root, mentioned, ints in instrument.unknown_reducer_hints():
+            if root in gen.ALL:
+                for origin, e in gen.directed_shapes(rng, root, mentioned, ints, 6000):
+                    cases.append({"origin": "focus:" + origin, "e": wire.expr(gen.floatify(e))})
     # symbolic derivatives of such trees
     g = gen.Gen(rng, names=("x", "y"), floats_only=True)
     for origin, e in common.expr_stream(rng, tier, common.sizes(tier, 120, 1500), depth_q=4, depth_t=5, names=("x", "y")):
